@@ -225,6 +225,15 @@ def pos_requires(*conds):
     return cl
 
 
+def scaling_shape_clauses(cond):
+    """The scalings of a conditional have one entry per latent coefficient / observed row (and per dimension for the
+    block-diagonal model): shapes follow from the linear map (a swapped pair of all-ones scalings differs only here)."""
+    A = cond.A
+    lead = tuple(A.shape[:-2])
+    return [holds("to_latent_has_one_entry_per_latent_coefficient", jnp.asarray(tuple(jnp.shape(cond.to_latent)) == lead + (A.shape[-1],))),
+            holds("to_observed_has_one_entry_per_observed_row", jnp.asarray(tuple(jnp.shape(cond.to_observed)) == lead + (A.shape[-2],)))]
+
+
 def _shape_family(tier, L):
     """(n_in, n_out, d): number of latent coefficients, observed rows per dimension, dimensions."""
     if L is DenseL:
@@ -376,7 +385,8 @@ def make_contracts(L):
             eq("cov", cov(L, res.noise), Q),
             eq("unit_to_latent", res.to_latent, 1.0),
             eq("unit_to_observed", res.to_observed, 1.0),
-        ]
+            # ... with the shapes of the scalings they replace (a swapped pair of all-ones vectors would only differ in shape)
+        ] + scaling_shape_clauses(res)
 
     def precon_inst(tier):
         out = []
